@@ -60,11 +60,11 @@ func (n *Name) UnmarshalJSON(b []byte) error {
 
 // Content describes file bytes deterministically.
 type Content struct {
-	Class  string  `json:"class"`            // random zeros byte periodic high text
-	Seed   uint64  `json:"seed,omitempty"`   // content identity
-	Size   int64   `json:"size"`             // length of the base content
-	Period int     `json:"period,omitempty"` // for periodic
-	Edits  []Edit  `json:"edits,omitempty"`  // applied in order to the base bytes
+	Class  string `json:"class"`            // random zeros byte periodic high text
+	Seed   uint64 `json:"seed,omitempty"`   // content identity
+	Size   int64  `json:"size"`             // length of the base content
+	Period int    `json:"period,omitempty"` // for periodic
+	Edits  []Edit `json:"edits,omitempty"`  // applied in order to the base bytes
 }
 
 // Edit modifies content. Kind: ins (insert Len bytes at Off), del (delete Len
@@ -212,10 +212,10 @@ func (c *Content) Bytes() []byte {
 
 // Entry is one file-system object of a tree spec.
 type Entry struct {
-	Path    Name     `json:"path"`             // relative, slash separated
-	Type    string   `json:"type"`             // f d l fifo sock chr blk
-	Perm    uint32   `json:"perm"`             // permission bits
-	Mtime   int64    `json:"mtime"`            // seconds
+	Path    Name     `json:"path"`  // relative, slash separated
+	Type    string   `json:"type"`  // f d l fifo sock chr blk
+	Perm    uint32   `json:"perm"`  // permission bits
+	Mtime   int64    `json:"mtime"` // seconds
 	MtimeNs int64    `json:"mtime_ns,omitempty"`
 	Content *Content `json:"content,omitempty"`
 	Target  Name     `json:"target,omitempty"` // symlink target
